@@ -523,12 +523,8 @@ func trimWhitespace(t *Tree, s string) string {
 			str = trimLeadWS(str, quotePos)
 		}
 
-		if len(str) == 0 {
-			continue
-		}
-
 		// Handle a CRLF line-break
-		if rune(str[len(str)-1]) == '\r' {
+		if len(str) > 0 && rune(str[len(str)-1]) == '\r' {
 			cr = 1
 		}
 
